@@ -50,7 +50,7 @@ def gen(rng, tier):
         elif target == 'value':
             ops.append([party, 'value', rng.choice(['set', 'get', 'prop_set', 'prop_get']), rng.choice([0, 1, 7, -3]), v, i])
         elif target == 'maker':
-            ops.append([party, 'maker', rng.choice(['bump', 'bump', 'boom', 'type_error', 'noop']), rng.choice([1, 2, 5]), v, i])
+            ops.append([party, 'maker', rng.choice(['bump', 'bump', 'boom', 'type_error', 'noop', 'raise_lib']), rng.choice([1, 2, 3, 5]), v, i])
         else:
             ops.append([party, 'managed', rng.choice(['make_use', 'nested_use', 'shared_use']), rng.choice([1, 2, 3]), v, i])
     sc = {'ops': ops, 'concurrent': rng.choice([0, 0, 4, 8])}
@@ -175,6 +175,8 @@ def apply_local(ref, kind, m, a, v, i):
             return M.bump(a)
         if m == 'boom':
             return M.boom(a)
+        if m == 'raise_lib':
+            return M.raise_lib(a)
         if m == 'type_error':
             return M.type_error(a)
         return M.noop()
@@ -197,7 +199,7 @@ def proxy_call_spec(kind, m, a, v, i):
     if kind == 'value':
         return {'set': ('set', (a,)), 'get': ('get', ()), 'prop_set': ('set', (a,)), 'prop_get': ('get', ())}[m]
     if kind == 'maker':
-        return {'bump': ('bump', (a,)), 'boom': ('boom', (a,)), 'type_error': ('type_error', (a,)), 'noop': ('noop', ())}[m]
+        return {'bump': ('bump', (a,)), 'boom': ('boom', (a,)), 'type_error': ('type_error', (a,)), 'noop': ('noop', ()), 'raise_lib': ('raise_lib', (a,))}[m]
     return None
 
 
